@@ -2514,6 +2514,15 @@ class OpInit:
 
 
 COQ_OPS = ('transpose', 'conj', 'scale', 'add', 'outer', 'tensordot')
+# second correspondence stream (own list `coq2`, own per-program limit, so that the first stream is unchanged):
+# Model/TensorProg.v iswapaxes / gauge_total_charge and Model/TakeSlice.v take_slice on one axis
+COQ_OPS2 = ('iswapaxes', 'gauge_total_charge', 'getitem')
+
+
+def coq2_wanted(o):
+    if o['op'] == 'getitem':
+        return bool(o.get('take_slice')) and not isinstance(o.get('indices'), list)
+    return o['op'] in COQ_OPS2
 
 
 def is_gauss_int(a):
@@ -2613,6 +2622,7 @@ class ProgramRunner:
         self.ops = []
         self.fails = []
         self.coq = []
+        self.coq2 = []
         self.stats = {}
         self.step = -1
         self.max_slots = 6
@@ -2753,7 +2763,8 @@ class ProgramRunner:
             self.stat('struct:' + sc)
         target = o.get('a') if not isinstance(o.get('a'), list) else None
         coq_before = None
-        if self.record_coq and o['op'] in COQ_OPS and len(self.coq) < self.record_coq and 'malformed' not in o:
+        if self.record_coq and 'malformed' not in o and ((o['op'] in COQ_OPS and len(self.coq) < self.record_coq) or
+                                                         (coq2_wanted(o) and len(self.coq2) < self.record_coq)):
             try:
                 opnds = [env.slots[o['a']].impl] + ([env.slots[o['b']].impl] if 'b' in o else [])
                 if all(storage_small(x) for x in opnds):
@@ -2912,7 +2923,7 @@ class ProgramRunner:
             env = self.env
             A = env.slots[o['a']].ref if env.slots[o['a']] is not None else None
             rec['mods'] = list(env.mods)
-            self.coq.append(rec)
+            (self.coq2 if o['op'] in COQ_OPS2 else self.coq).append(rec)
         except Exception:
             pass
 
@@ -2939,7 +2950,7 @@ class ProgramRunner:
             self.compact()
             if not self.env.slots and explicit is None and k >= self.prog.get('n_init', 2):
                 pass
-        return {'seed': self.prog['seed'], 'ops': self.ops, 'fails': self.fails, 'coq': self.coq, 'stats': self.stats,
+        return {'seed': self.prog['seed'], 'ops': self.ops, 'fails': self.fails, 'coq': self.coq, 'coq2': self.coq2, 'stats': self.stats,
                 'nsteps': len(self.ops)}
 
 
